@@ -1100,6 +1100,11 @@ def oracle_c05_supply(run, ops, impl):
         sd, bd = int(kv.get("supplyDelta", "0")), int(kv.get("balancesDelta", "0"))
         if sd == 0 and bd == 0:
             continue
+        if sd < 0 and bd == sd and {"sd", "xfer"} <= feat and not (has_pc and undone):
+            # value sent to a contract that has already self-destructed in this tx is destroyed with the account at the end of the
+            # tx — go-ethereum's semantics (which C03 demands), the sibling of the self-destruct-to-self case the property excludes;
+            # shrunk witness (thorough tier, seed 31005): B self-destructs, then A sends 3 unibi to B -> supply -3
+            continue
         if has_pc and undone:
             sig = "C05:supply-changed:tx-with-undone-precompile-frame:%s" % ("increase" if sd > 0 else "decrease")
         else:
